@@ -249,6 +249,147 @@ def _owning_ty(t):
 TYPE_STATE_FIELDS = ("type_id", "drop_fn", "clone_fn")
 
 
+TS_FIELDS = (("raw", "type_id"), ("raw", "drop_fn"), ("clone_fn",))
+
+
+def _typestate_moves_together(ctx, res):
+    """(1) outside the constructors the type-describing state of a vector changes only as a whole and only by taking over another vector's: on every path on
+    which one of type_id / drop_fn / clone_fn of a vector is rewritten, all of them are, each copied from the same-named field of ONE source vector, and the
+    storage is known to have that vector's element layout (a dominating layout-equality test, or the storage is rebuilt for the source's layout)."""
+    seen = set()
+    for fpath, subst, ef, label in entry_points(ctx):
+        f = ctx.fn(fpath)
+        if f is None or f.get("kind") == "Closure":
+            continue
+        for tt, I in ctx.arms(fpath, subst=subst, entry_facts=ef) or []:
+            rec = {}        # owner (root, prefix) -> field -> [(effect, source owner | None, covers_mem)]
+            for e in I.all_effects(("STORE",)):
+                snap = e.get("snap")
+                if not snap:
+                    continue
+                root, proj = e["path"]
+                if root[0] not in ("P", "A"):
+                    continue
+                for sub, val in snap[1]:
+                    full = tuple(proj) + tuple(sub)
+                    for F in TS_FIELDS:
+                        if full[-len(F):] != F:
+                            continue
+                        owner = (root, full[:-len(F)])
+                        src = None
+                        if isinstance(val, tuple) and val and val[0] in ("alias", "init") and isinstance(val[1], tuple) and len(val[1]) == 2 \
+                                and tuple(val[1][1])[-len(F):] == F:
+                            src = (val[1][0], tuple(val[1][1])[:-len(F)])
+                        covers_mem = len(proj) <= len(owner[1]) + 1     # the store replaces the whole vector or its whole `raw`
+                        rec.setdefault(owner, {}).setdefault(F, []).append((e, src, covers_mem, val))
+            rets = [r.gid for r in I.all_effects(("RETURN",))]
+            for owner, byf in rec.items():
+                key = (fpath, owner, arm_name(tt))
+                if key in seen:
+                    continue
+                seen.add(key)
+                res.inst(sample={"entry": fpath, "vector": str(owner), "type_state_rewritten": sorted(".".join(F) for F in byf)}, func=fpath)
+                bad = None
+                srcs = {s for lst in byf.values() for (_e, s, _c, _v) in lst}
+                where = byf[next(iter(byf))][0][0]
+                if None in srcs:
+                    F, (e0, _s, _c, v0) = next((F, x) for F, lst in byf.items() for x in lst if x[1] is None)
+                    bad = ("source:" + F[-1], "%s of the vector is assigned from %s, which is not the same-named field of another vector" % (".".join(F), str(v0)[:80]), e0)
+                elif len(srcs) > 1:
+                    bad = ("mixed-sources", "the type-describing fields are taken from different vectors (%s)" % ", ".join(sorted(map(str, srcs))), where)
+                else:
+                    S = next(iter(srcs))
+                    for F, lst in byf.items():
+                        for (e0, _s, covers, _v) in lst:
+                            for G in TS_FIELDS:
+                                if G == F:
+                                    continue
+                                gn = {x[0].gid for x in byf.get(G, [])}
+                                if e0.gid in gn:
+                                    continue
+                                before = every_path_to(I, e0.gid, lambda g: g in gn)
+                                after = True
+                                if not before:
+                                    work, seen_n = [e0.gid], {e0.gid}
+                                    while work and after:
+                                        g = work.pop()
+                                        if g in rets:
+                                            after = False
+                                            break
+                                        for n2 in I._succs(g):
+                                            if n2 not in seen_n and n2 not in gn:
+                                                seen_n.add(n2)
+                                                work.append(n2)
+                                if not before and not after:
+                                    bad = ("partial:" + G[-1], "%s is rewritten (line %s) on a path that leaves %s as it was: the vector then describes two different element "
+                                           "types at once (destructor / clone function / type id of different types)" % (".".join(F), e0.get("line"), ".".join(G)), e0)
+                                    break
+                            if bad:
+                                break
+                            if not covers:
+                                lo = ("LAYOUT", (owner[0], owner[1] + ("raw", "mem")))
+                                ls = ("LAYOUT", (S[0], S[1] + ("raw", "mem")))
+                                if not any(ff[0] == "teq" and {ff[1], ff[2]} == {lo, ls} for ff in e0["facts"]):
+                                    bad = ("layout", "%s is taken over from another vector without a dominating test that both storages have the same element layout "
+                                           "(the storage was built for the old element type)" % ".".join(F), e0)
+                                    break
+                        if bad:
+                            break
+                if bad:
+                    res.fail(fpath, "typestate:" + bad[0], "%s: %s" % (fpath, bad[1]), span=span_of_effect(bad[2]))
+                else:
+                    res.ok()
+
+
+def _field_of(v):
+    """(root, path) of the vector field a value stands for: ("alias", p) / ("init", p, 0)"""
+    if isinstance(v, tuple) and v and v[0] in ("alias", "init") and isinstance(v[1], tuple) and len(v[1]) == 2:
+        return (v[1][0], tuple(v[1][1]))
+    return None
+
+
+def _clone_target_type(ctx, res):
+    """(1b) elements are cloned, with the SOURCE vector's clone function, only into storage whose vector describes the same element type: at the clone call the
+    target's type_id / drop_fn are (copies of) the source's, or a dominating test established that both type ids are equal"""
+    seen = set()
+    for fpath, subst, ef, label in entry_points(ctx):
+        f = ctx.fn(fpath)
+        if f is None:
+            continue
+        for tt, I in ctx.arms(fpath, subst=subst, entry_facts=ef) or []:
+            for e in I.all_effects(("CLONE",)):
+                d, sr = e.get("dst_ts"), e.get("src_ts")
+                if not d or not sr:
+                    continue
+                key = (e.node.inst.path(), e.get("line"), fpath, arm_name(tt))
+                if key in seen:
+                    continue
+                seen.add(key)
+                (downer, dts), (sowner, sts) = d, sr
+                res.inst(sample={"clone_into": str(downer), "from": str(sowner), "entry": fpath}, func=e.node.inst.path())
+                bad = None
+                for F in ("type_id", "drop_fn"):
+                    want = (sowner[0], sowner[1] + (F,))
+                    have = _field_of(dts.get(F))
+                    src_now = _field_of(sts.get(F))
+                    if have == want or (src_now is not None and have == src_now):
+                        continue
+                    if downer == sowner:
+                        continue
+                    # a dominating equality test of the two type ids
+                    tid_d, tid_s = dts.get("type_id"), sts.get("type_id")
+                    if any(ff[0] == "teq" and ((ff[1] == tid_d and ff[2] == tid_s) or (ff[1] == tid_s and ff[2] == tid_d)) for ff in e["facts"]):
+                        continue
+                    bad = F
+                    break
+                if bad:
+                    res.fail(e.node.inst.path(), "clone-into-foreign-type", "%s (reached from %s) clones the elements of %s into the storage of %s while that vector's %s "
+                             "is %s, not the source's: the clones are later destroyed / cloned / reported with another type's functions (or never destroyed)"
+                             % (e.node.inst.path(), fpath, sowner, downer, bad, str(dts.get(bad))[:60]), span=span_of_effect(e))
+                else:
+                    res.ok()
+
+
 def r_provenance(ctx):
     res = RuleResult("R-PROVENANCE")
     fx = ctx.fx
@@ -263,13 +404,8 @@ def r_provenance(ctx):
                 if rv["k"] == "agg" and rv.get("adt") in ("any_vec_raw::AnyVecRaw", "any_vec::AnyVec"):
                     if f["path"] not in ctor_fns:
                         ctor_fns.append(f["path"])
-                fields = [e["field"] for e in s["dst"]["proj"] if isinstance(e, dict) and "field" in e]
-                of = [e.get("of", "") for e in s["dst"]["proj"] if isinstance(e, dict) and "field" in e]
-                for fld, o in zip(fields, of):
-                    if fld in TYPE_STATE_FIELDS and ("AnyVecRaw<" in o or "AnyVec<" in o):
-                        res.inst(func=f["path"])
-                        res.fail(f["path"], "assigns:" + fld, "the vector's %s is assigned outside a constructor" % fld,
-                                 span="%s:%s" % (f["span"]["file"], s.get("line")))
+    _typestate_moves_together(ctx, res)
+    _clone_target_type(ctx, res)
     allowed_outputs = ("any_vec_raw::AnyVecRaw", "any_vec::AnyVec")
     for p in ctor_fns:
         f = ctx.fn(p)
@@ -642,6 +778,72 @@ def _tree_alias_last(v, last):
 
 # ------------------------------------------------------------------------------------------------ R-ALLOCCONFINED
 
+READ_ONLY_ALLOC = ("deref", "as_slice", "len", "is_empty", "capacity", "as_ptr", "eq", "ne", "as_ref", "borrow", "iter", "get", "first", "last", "cmp", "partial_cmp")
+
+
+def _reads_only(path):
+    """a function of crate alloc that only reads an existing value (comparing a typed view with a `Vec`, viewing a `Vec` / `Box` / `String` as a slice): it
+    cannot allocate, so a stack-backed vector using it still never touches the heap"""
+    name = path.rsplit("::", 1)[-1]
+    return name in READ_ONLY_ALLOC
+
+
+def _only_reads_alloc_values(f):
+    """every call into crate alloc / std in the body is a read-only accessor, and no value of an alloc type is constructed, cloned or dropped there"""
+    n = 0
+    for b in f.get("blocks", []):
+        t = b["term"]
+        if t["k"] == "drop":
+            ty = None
+            pl = t.get("place", {})
+            if not pl.get("proj") and "local" in pl:
+                ty = f["locals"][pl["local"]].get("s", "")
+            if ty and ("alloc::" in ty or "std::" in ty) and not ty.startswith("&"):
+                return False
+        if t["k"] != "call" or "indirect" in t["callee"]:
+            continue
+        c = t["callee"]
+        if c.get("crate") in ("alloc", "std"):
+            n += 1
+            if not _reads_only(c["path"]):
+                return False
+        elif any("alloc::" in (a.get("s") or "") for a in c.get("generic_args", [])) and c.get("name") in ("clone", "default", "new", "from", "into", "collect", "to_owned"):
+            return False
+    return True
+
+
+FIXED_BACKENDS = ("mem::stack::", "mem::stack_n::", "mem::empty::", "<mem::stack::", "<mem::stack_n::", "<mem::empty::")
+
+
+def _heap_backend_module(path):
+    """a storage backend other than the fixed-capacity ones (mem::heap, or an added backend that spills to / lives on the heap): allocation is its job; what
+    C11 / C19 forbid is an allocator call reachable from the generic vector code or from a fixed-capacity backend"""
+    return (path.startswith("mem::") or path.startswith("<mem::")) and not path.startswith(FIXED_BACKENDS) and path.count("::") >= 2
+
+
+def _owner_fn(ctx, f):
+    import re
+    if f.get("kind") == "Closure":
+        return ctx.fx.fn(re.sub(r"::\{closure#\d+\}.*$", "", f["path"])) or f
+    return f
+
+
+def _heap_only_item(f):
+    """the item exists only for heap-backed vectors: its impl header names the heap backend as the vector's backend (`impl AnyVec<Traits, Heap>`,
+    `impl From<Vec<T>> for AnyVec<Traits, Heap>`), so no stack-backed vector can reach it"""
+    def has_heap(t, depth=0):
+        if not isinstance(t, dict) or depth > 6:
+            return False
+        if t.get("k") == "adt" and t.get("path", "").startswith("mem::heap::"):
+            return True
+        return any(has_heap(a, depth + 1) for a in t.get("args", []) if isinstance(a, dict)) or has_heap(t.get("to"), depth + 1)
+    if has_heap(f.get("impl_self_ty")):
+        return True
+    # ... or it consumes / borrows a heap-backed vector (`impl TryFrom<AnyVec<_, Heap>> for Vec<T>`, `fn into_vec(v: AnyVec<_, Heap>)`)
+    sig = f.get("sig") or {}
+    return any(has_heap(t) for t in sig.get("inputs", []))
+
+
 def r_allocconfined(ctx):
     res = RuleResult("R-ALLOCCONFINED")
     inside = 0
@@ -657,10 +859,14 @@ def r_allocconfined(ctx):
                     if "fn" in c:
                         cands.append((c["fn"].get("crate"), c["fn"]["path"], s.get("line")))
             for crate, path, line in cands:
+                if crate in ("alloc", "std") and _reads_only(path):
+                    continue
                 if crate in ("alloc", "std"):
                     res.inst(sample={"function": f["path"], "calls": path}, func=f["path"])
                     if f["path"].startswith("<mem::heap::") or f["path"].startswith("mem::heap::"):
                         inside += 1
+                        res.ok()
+                    elif _heap_only_item(_owner_fn(ctx, f)) or _heap_backend_module(f["path"]):
                         res.ok()
                     else:
                         res.fail(f["path"], "alloc-path", "%s reaches crate `%s` (%s) outside module mem::heap: stack-backed vectors must never touch the heap"
@@ -670,8 +876,12 @@ def r_allocconfined(ctx):
         if f["path"].startswith("<mem::heap::") or f["path"].startswith("mem::heap::"):
             continue
         bad = [c for c in f.get("crates", []) if c not in ("core", "any_vec", "compiler_builtins")]
+        if bad and _only_reads_alloc_values(f):
+            bad = []
         res.inst(func=f["path"])
-        if bad:
+        if bad and (_heap_only_item(_owner_fn(ctx, f)) or _heap_backend_module(f["path"])):
+            res.ok()
+        elif bad:
             res.fail(f["path"], "alloc-item", "%s mentions items of crate %s outside module mem::heap (types or functions): stack-backed vectors must never touch the heap"
                      % (f["path"], ", ".join(bad)), span=ctx.span_of(f["path"]))
         else:
@@ -921,6 +1131,24 @@ def r_heap(ctx):
                     res.fail(bp, "build-allocates", "a fresh heap backend must own no allocation and report size 0")
                 else:
                     res.ok()
+    # adopted allocations: a heap backend assembled around the buffer of a `Vec` (its pointer reaches HeapMem::mem) must record the Vec's CAPACITY as its
+    # size - realloc/dealloc later present (element size x size) as the layout of the block, and the allocator was given capacity, not len
+    for f in fx.fn_list:
+        if f.get("kind") not in ("Fn", "AssocFn") or fx.fn(f["path"]) is not f or "alloc" not in f.get("crates", []):
+            continue
+        for tt, I in ctx.arms(f["path"]) or []:
+            tr = ret_tree(I) or {}
+            for k, v in tr.items():
+                if k[-1:] != ("mem",) or "vec::Vec" not in repr(v) or not any(x in repr(v) for x in ("as_mut_ptr", "as_ptr", "as_non_null", "into_raw_parts", "leak")):
+                    continue
+                sz = tr.get(k[:-1] + ("size",))
+                res.inst(sample={"obligation": "adopted Vec buffer keeps the Vec's capacity", "function": f["path"], "size_recorded": str(sz)[:80]}, func=f["path"])
+                if sz is not None and "vec::Vec" in repr(sz) and "::capacity" in repr(sz) and "::len" not in repr(sz):
+                    res.ok()
+                else:
+                    res.fail(f["path"], "adopted-allocation-size", "%s builds a heap backend around a Vec's buffer but records %s as its size: the block was allocated "
+                             "for the Vec's capacity(), so a later realloc / dealloc presents a layout that is not the one it was allocated with"
+                             % (f["path"], str(sz)[:80]), span=ctx.span_of(f["path"]))
     return res
 
 
@@ -1008,7 +1236,7 @@ def r_align(ctx):
                     res.fail(p, "unknown-pointer", "cannot classify the storage pointer %s" % (v,), kind="coverage-lost")
     # pointer producers inside storage backends: only the allocator, dangling(layout), inline buffers and caller-supplied handles
     ALLOWED = ("alloc", "realloc", "alloc_zeroed", "new", "new_unchecked", "unwrap", "expect", "unwrap_or_else", "as_ptr", "as_mut_ptr", "cast", "dangling", "from",
-               "as_ref", "as_mut", "add")
+               "as_ref", "as_mut", "add", "sub", "offset", "wrapping_add", "wrapping_sub", "wrapping_offset", "byte_add", "byte_sub", "cast_const", "cast_mut")
     work = []
     for f in fx.fn_list:
         in_backend = (f.get("impl_trait") or "").startswith("mem::Mem") or f["path"].startswith("mem::") or f["path"].startswith("<mem::")
@@ -1116,6 +1344,12 @@ def _field_ptr_writers_aligned(ctx, adt, res):
 
 # ------------------------------------------------------------------------------------------------ R-ITER
 
+def _inconsistent(facts):
+    from ..interp import contradicts
+    fs = frozenset(facts)
+    return any(contradicts(fs - {f}, f) for f in fs if f and f[0] in ("eq0", "ne0", "ge0"))
+
+
 def r_iter(ctx):
     res = RuleResult("R-ITER")
     fx = ctx.fx
@@ -1183,23 +1417,78 @@ def r_iter(ctx):
                      span="%s:%s" % (its[0]["span"]["file"], its[0]["span"]["line"]))
         else:
             res.ok()
-    # any further method of the cursor iterator that moves a cursor is outside the checked discipline: fail closed
-    for im in fx.impls:
-        if im["self_ty"].get("path") != "iter::Iter" or (im.get("trait") or "") not in ("core::iter::Iterator", "core::iter::DoubleEndedIterator", "core::iter::ExactSizeIterator"):
+    # any further method of the cursor iterator (an override such as nth / nth_back / advance_by, or an inherent method): judged from the invariant
+    # index <= end that the constructor establishes and next / next_back preserve. Every cursor update written by the method itself (updates inside an
+    # inlined next / next_back are those judged above) keeps index0 <= cursor <= end0; every element it addresses itself lies in [index0, end0); the
+    # std contract of nth / nth_back: a `None` result leaves the iterator exhausted (the default implementation consumed everything)
+    inv = [cmp_fact("Le", idx0, end0)]
+    judged_names = ("next", "next_back")
+    for f in fx.fn_list:
+        if f.get("kind") != "AssocFn" or f.get("impl_self_ty", {}).get("path") != "iter::Iter" or f.get("self_kind") not in ("ref", "mut") or fx.fn(f["path"]) is not f:
             continue
-        for it in im["items"]:
-            if not it["kind"].startswith("Fn") or it["name"] in ("next", "next_back", "size_hint", "len"):
+        if f.get("name") in ("next", "next_back", "size_hint", "len", "clone"):
+            continue
+        if not (ctx.is_public(f) or f.get("impl_trait")):
+            continue          # a private helper: judged where it is expanded (in next / next_back or in a public method)
+        p2 = f["path"]
+        for tt, I in ctx.arms(p2, entry_facts=inv) or []:
+            an = arm_name(tt)
+
+            def own(e):
+                i2 = e.node.inst
+                while i2 is not None:
+                    if i2.fn.get("name") in judged_names and i2.fn.get("impl_self_ty", {}).get("path") == "iter::Iter" and i2.parent is not None:
+                        return False
+                    i2 = i2.parent
+                return True
+            stores = [e for e in I.all_effects(("STORE",)) if e["path"][0] == ("P", 1) and e["path"][1] in (("index",), ("end",))]
+            direct = [e for e in stores if own(e)]
+            news = [e for e in I.all_effects(("ENTER",)) if e["callee"].startswith("element::ElementPointer") and e["callee"].endswith("::new") and own(e)]
+            if not stores and not news:
                 continue
-            p2 = it["path"]
-            for tt, I in ctx.arms(p2) or []:
-                stores = [e for e in I.all_effects(("STORE",)) if e["path"][0] == ("P", 1)]
-                res.inst(sample={"extra_iterator_method": p2, "cursor_stores": len(stores)}, func=p2)
-                if stores:
-                    res.fail(p2, "unclassified-cursor-method", "`%s` overrides an iterator method and moves a cursor (%s := %s) outside the checked next/next_back discipline: "
-                             "index <= end, fusedness and exact size are not shown to be preserved" % (it["name"], ".".join(stores[0]["path"][1]), stores[0]["value"]),
-                             span=ctx.span_of(p2), kind="coverage-lost")
-                else:
-                    res.ok()
+            res.inst(sample={"extra_iterator_method": p2, "own_cursor_updates": len(direct), "cursor_updates_through_next": len(stores) - len(direct)}, func=p2)
+            bad = None
+            undecided = None
+            for e in direct:
+                v = as_poly(e["value"])
+                if any(isinstance(a, tuple) and a and a[0] == "phi" for a in v.atoms()):
+                    undecided = "cursor update %s := %s inside a loop" % (".".join(e["path"][1]), v)
+                    continue
+                if not (implies(e["facts"], cmp_fact("Le", idx0, v)) and implies(e["facts"], cmp_fact("Le", v, end0))):
+                    bad = ("cursor-range", "`%s` sets %s := %s without index <= %s <= end being established (known: %s): the cursors cross or run past the range, so "
+                           "len() wraps and further calls address slots outside it" % (f["name"], ".".join(e["path"][1]), v, v, fmt_facts(e["facts"]) or "index <= end"), e)
+                    break
+            for e in news if not bad else []:
+                sl = slot_of(e["args"][1]) if len(e["args"]) > 1 else None
+                if not sl or sl[1] is None or any(isinstance(a, tuple) and a and a[0] == "phi" for a in as_poly(sl[1]).atoms()):
+                    undecided = "element addressed at %s" % (sl[1] if sl else "?")
+                    continue
+                if not (implies(e["facts"], cmp_fact("Le", idx0, sl[1])) and implies(e["facts"], cmp_fact("Lt", sl[1], end0))):
+                    bad = ("slot-range", "`%s` yields slot %s without index <= slot < end being established (known: %s)" % (f["name"], sl[1], fmt_facts(e["facts"])), e)
+                    break
+            if not bad and f.get("name") in ("nth", "nth_back") and f.get("impl_trait"):
+                ynodes = {e.gid for e in I.all_effects(("ENTER",)) if e["callee"].startswith("element::ElementPointer") and e["callee"].endswith("::new")}
+
+                def exhausted_on_edge(p_, g_):
+                    stt = I.out_states.get((p_, g_))
+                    if stt is None:
+                        return False
+                    ic = as_poly(I.load(stt, (("P", 1), ("index",)), {"k": "uint"}))
+                    ec = as_poly(I.load(stt, (("P", 1), ("end",)), {"k": "uint"}))
+                    return ic == ec or implies(stt.facts, ("eq0", _canon(ic - ec))) or _inconsistent(stt.facts)
+                for r in I.all_effects(("RETURN",)):
+                    if not every_path_to(I, r.gid, lambda g: g in ynodes, ok_edge=exhausted_on_edge):
+                        bad = ("none-not-exhausted", "`%s` can return without yielding an element while index is not known to equal end: the default implementation "
+                               "would have consumed every element, so len() / size_hint still report elements and a later next() yields them after a None" % f["name"], r)
+                        break
+            if bad:
+                res.fail(p2, "%s/%s" % (bad[0], an), bad[1], span=span_of_effect(bad[2]))
+            else:
+                res.ok()
+                if undecided:
+                    note = "%s: %s - not decided (loop), judged through the inlined next / next_back only" % (p2, undecided)
+                    if note not in res.notes:
+                        res.notes.append(note)
     # size_hint / len
     p = I0 + "Iterator>::size_hint"
     for tt, I in ctx.arms(p) or []:
@@ -1243,6 +1532,16 @@ def r_iter(ctx):
         sp = im["self_ty"].get("path")
         if im["self_ty"].get("k") != "adt" or sp == "iter::Iter" or sp not in fx.adts:
             continue
+        if sp != "ops::iter::Iter":
+            # an iterator type of its own (not a wrapper): it forwards to nothing; only types that do call into an inner iterator are judged as wrappers
+            wraps = False
+            for it in im["items"]:
+                if it["kind"].startswith("Fn"):
+                    for tt, I in ctx.arms(it["path"]) or []:
+                        if any(e["what"].startswith("iter-") for e in I.all_effects(("USER",))):
+                            wraps = True
+            if not wraps:
+                continue
         for it in im["items"]:
             if not it["kind"].startswith("Fn"):
                 continue
@@ -1301,6 +1600,77 @@ def _is_exclusive_out(t):
     return False
 
 
+def _has_mut_ref(t, depth=0):
+    if not isinstance(t, dict) or depth > 6:
+        return False
+    if t.get("k") == "ref" and t.get("mut"):
+        return True
+    if t.get("k") in ("ref", "ptr", "slice", "array"):
+        return _has_mut_ref(t.get("to"), depth + 1)
+    return any(_has_mut_ref(a, depth + 1) for a in t.get("args", []) if isinstance(a, dict)) or any(_has_mut_ref(a, depth + 1) for a in t.get("elems", []))
+
+
+def _shape(t):
+    """type shape without regions: (path, [arg shapes]) ; type parameters are wildcards (None)"""
+    if not isinstance(t, dict):
+        return None
+    k = t.get("k")
+    if k == "adt":
+        return (t["path"], tuple(_shape(a) for a in t.get("args", []) if a.get("k") != "region"))
+    if k == "param":
+        return None
+    if k == "ref":
+        return ("&mut" if t.get("mut") else "&", (_shape(t["to"]),))
+    return (t.get("s"), ())
+
+
+def _unify(a, b):
+    if a is None or b is None:
+        return True
+    if a[0] != b[0] or len(a[1]) != len(b[1]):
+        return False
+    return all(_unify(x, y) for x, y in zip(a[1], b[1]))
+
+
+def _shared_only(ctx, st):
+    """the receiver type is a handle that only ever stands for a SHARED borrow of a vector: its shape is produced by some public `&self` method of the
+    vector (directly, as an Option payload, as an iterator item or as a Deref target of such a type) and unifies with nothing a `&mut self` method produces"""
+    cache = ctx.__dict__.setdefault("_shared_shapes", None)
+    if cache is None:
+        sh, ex = [], []
+        fx = ctx.fx
+
+        def outs(f):
+            o = [f["sig"]["output"]]
+            if f.get("output_iter_item"):
+                o.append(f["output_iter_item"])
+            r = []
+            for t in o:
+                while t.get("k") == "adt" and t["path"] == "core::option::Option":
+                    t = next((a for a in t.get("args", []) if a.get("k") != "region"), t)
+                    if t.get("path") == "core::option::Option":
+                        continue
+                    break
+                r.append(t)
+            return r
+        for f in fx.fn_list:
+            if f.get("kind") != "AssocFn" or not ctx.is_public(f) or f.get("impl_self_ty", {}).get("path") != "any_vec::AnyVec" or f.get("impl_trait"):
+                continue
+            if f.get("self_kind") == "ref":
+                sh += [_shape(t) for t in outs(f) if t.get("k") == "adt"]
+            elif f.get("self_kind") == "mut":
+                ex += [_shape(t) for t in outs(f) if t.get("k") == "adt"]
+        cache = ctx.__dict__["_shared_shapes"] = (sh, ex)
+    sh, ex = cache
+    me = _shape(st)
+    if me is None or st.get("k") != "adt":
+        return False
+    a_ = ctx.fx.adts.get(st.get("path"))
+    if a_ is None or not any(g["kind"] == "lifetime" for g in a_.get("generics", [])):
+        return False          # not a borrowing handle (the vector itself, an owned value)
+    return any(_unify(me, x) for x in sh) and not any(_unify(me, x) for x in ex)
+
+
 def _has_region(t):
     s = t.get("s", "")
     return "'" in s or t.get("k") == "ref" or "&" in s
@@ -1333,6 +1703,17 @@ def r_sig(ctx):
         bound = sig.get("output_bound_regions", [])
         if not free and not bound:
             continue
+        # a handle type that only ever stands for a SHARED borrow of the vector (and can be copied) never hands out exclusive access, whatever the
+        # receiver: `impl IndexMut / AsMut / BorrowMut for AnyVecRef` would turn a shared view into `&mut T`
+        st0 = f.get("impl_self_ty", {})
+        if f["self_kind"] == "mut" and (_has_mut_ref(out) or _is_exclusive_out(out)) and _shared_only(ctx, st0) \
+                and any(im["self_ty"].get("path") == st0.get("path") for im in fx.impls_of("core::clone::Clone")):
+            n += 1
+            res.inst(sample={"method": f["path"], "receiver": "&mut " + st0.get("s", ""), "output": out["s"]}, func=f["path"])
+            res.fail(f["path"], "shared-view-yields-exclusive", "%s gives exclusive access (%s) out of %s, a handle that only stands for a shared borrow of the vector and "
+                     "can be cloned: two clones yield two `&mut` to the same element, and the vector itself is only shared-borrowed" % (f["path"], out["s"], st0.get("s")),
+                     span=ctx.span_of(f["path"]))
+            continue
         if f.get("impl_trait") and f["impl_trait"].startswith("core::") and f["impl_trait"] not in ("core::iter::IntoIterator",):
             continue
         if f.get("impl_trait") and not f["impl_trait"].startswith("core::") and f["impl_trait"] not in exported_traits:
@@ -1357,16 +1738,44 @@ def r_sig(ctx):
             res.fail(p, "shared-receiver-exclusive-handle", "returns an exclusive handle (%s) from `&self`: two such handles can coexist" % out["s"], span=ctx.span_of(p))
             ok = False
         if free and not f.get("unsafe"):
-            # impl-level lifetime in the output: the result is not tied to the borrow of the receiver
+            # impl-level lifetime in the output: the result is not tied to the borrow of the receiver. That is sound only for a receiver that is itself a
+            # SHARED handle (copying a shared borrow out of a shared borrow), never for one that may be exclusive
             recv_free = sig.get("input_regions", [{}])[0].get("free", []) if sig.get("input_regions") else []
-            tied = any(r in recv_free for r in free) and False
             st = f.get("impl_self_ty", {})
+            tied = (all(r in recv_free for r in free) and _shared_only(ctx, st) and not _is_exclusive_out(out) and not _has_mut_ref(out))
+            if tied:
+                res.samples.append({"method": p, "receiver": st.get("s"), "verdict": "shared-only receiver: impl-level lifetime is the shared borrow it was built from"}) \
+                    if len(res.samples) < 8 else None
             if not tied:
                 res.fail(p, "detached-lifetime", "the returned %s carries the impl-level lifetime %s instead of the borrow of `%sself`: it outlives / coexists with "
                          "later exclusive uses of the same view" % (out["s"], ",".join(free), "&mut " if f["self_kind"] == "mut" else "&"), span=ctx.span_of(p))
                 ok = False
         if ok:
             res.ok()
+    # (2a) callbacks: a method that takes `&mut self` and hands handles to a caller-supplied closure must quantify the handle's lifetime inside the closure
+    # bound (`F: for<'x> FnMut(ElementRef<'x>)`); with a lifetime of the method itself (`F: FnMut(ElementRef<'a>)`, `&'a mut self`) the closure can store the
+    # handle and read it after the method has moved or destroyed the element
+    import re as _re
+    for f in fx.fn_list:
+        if f.get("kind") not in ("AssocFn", "Fn") or not ctx.is_public(f) or f.get("unsafe") or fx.fn(f["path"]) is not f:
+            continue
+        sig = f.get("sig")
+        if not sig or not any(t.get("k") == "ref" and t.get("mut") for t in sig["inputs"]):
+            continue
+        for pred in f.get("where", []):
+            m = _re.match(r"^(?:for<([^>]*)> )?\w+: (?:core::ops::)?(?:FnMut|Fn|FnOnce)\((.*)\)$", pred)
+            if not m:
+                continue
+            bound = set(x.strip() for x in (m.group(1) or "").split(",") if x.strip())
+            used = set(_re.findall(r"'\w+", m.group(2)))
+            esc = sorted(r for r in used if r not in bound and r != "'static")
+            res.inst(sample={"function": f["path"], "callback_bound": pred, "regions_not_bound_by_the_closure": esc}, func=f["path"])
+            if esc:
+                res.fail(f["path"], "callback-argument-outlives-call", "%s takes `&mut` access and passes its callback an argument whose type mentions %s, a lifetime of "
+                         "the function rather than of the closure bound (`for<'x> ...`): the closure may keep the argument after the call moved or destroyed what "
+                         "it refers to" % (f["path"], ", ".join(esc)), span=ctx.span_of(f["path"]))
+            else:
+                res.ok()
     # (2b) constructors of borrowing values: every impl-level lifetime in the output must occur in some input type, otherwise the caller may pick it
     # freely and the result is not tied to anything it was built from (`fn new(value: &T) -> LazyClone<'a, T>`)
     for f in fx.fn_list:
@@ -1452,7 +1861,20 @@ def r_config(ctxs):
     only_d = sorted(da - na)
     only_n = sorted(na - da)
     res.inst(sample={"api_items_default": len(da), "api_items_no_alloc": len(na), "only_in_default": [p for p, k in only_d][:8]})
-    badd = [p for p, k in only_d if not (p.startswith("mem::heap") or p.startswith("<mem::heap"))]
+    def heap_specific(p):
+        """part of the heap backend, or an operation that by its signature exists only for heap-backed vectors / alloc types (it cannot be offered without alloc)"""
+        if p.startswith("mem::heap") or p.startswith("<mem::heap"):
+            return True
+        f = d.fn(p)
+        if f is None or "sig" not in f:
+            # an associated type / const of an impl: heap-specific when its impl header is (`<impl TryFrom<AnyVec<_, Heap>> for Vec<T>>::Error`)
+            return "alloc::" in p or "mem::heap" in p or ("AnyVec<" in p and "impl" in p and any(
+                ("alloc::" in (im.get("trait_ref") or "") or "alloc::" in im["self_ty"].get("s", "")) and any(it["path"] == p for it in im["items"]) for im in d.fx.impls))
+        mention = " ".join([f.get("impl_self_ty", {}).get("s", ""), f.get("impl_trait_ref", "") or "", f["sig"].get("s", "")])
+        if "mem::heap::" in mention or "alloc::" in mention:
+            return True
+        return any(_heap_only_item({"impl_self_ty": t}) for t in [f.get("impl_self_ty"), f["sig"]["output"]] + list(f["sig"]["inputs"]))
+    badd = [p for p, k in only_d if not heap_specific(p)]
     heap_in_n = [p for p, k in na if p.startswith("mem::heap") or p.startswith("<mem::heap")]
     if badd:
         res.fail(badd[0], "api-missing-without-alloc", "public item %s exists only with the alloc feature although it is not part of the heap backend" % badd[0])
@@ -1465,9 +1887,9 @@ def r_config(ctxs):
     else:
         res.ok()
     # impl surface (trait impls of public types)
-    di = {(im.get("trait_ref") or "", im["self_ty"]["s"]) for im in d.fx.impls}
+    di = {(im.get("trait_ref") or "", im["self_ty"]["s"]) for im in d.fx.impls if not _heap_only_item({"impl_self_ty": im["self_ty"]})}
     ni = {(im.get("trait_ref") or "", im["self_ty"]["s"]) for im in n.fx.impls}
-    diff = sorted(x for x in (di ^ ni) if "mem::heap" not in x[0] and "mem::heap" not in x[1])
+    diff = sorted(x for x in (di ^ ni) if "mem::heap" not in x[0] and "mem::heap" not in x[1] and "alloc::" not in x[0] and "alloc::" not in x[1])
     res.inst(sample={"impls_default": len(di), "impls_no_alloc": len(ni), "unexplained_difference": diff[:4]})
     if diff:
         res.fail(diff[0][1], "impl-surface", "impl `%s for %s` exists in only one configuration" % diff[0])
@@ -1487,7 +1909,7 @@ def r_config(ctxs):
             if nbad <= 5:
                 res.fail(p, "body-differs", "the body of %s differs between the default and the no-alloc build: behaviour depends on the alloc feature" % p,
                          span=d.span_of(p))
-    missing = sorted(p for p in set(dh) - set(nh) if not (p.startswith("mem::heap") or p.startswith("<mem::heap")))
+    missing = sorted(p for p in set(dh) - set(nh) if not heap_specific(p))
     res.inst(sample={"bodies_common": len(common), "bodies_only_default": len(set(dh) - set(nh)), "non_heap_missing": missing[:4]})
     if missing:
         res.fail(missing[0], "body-missing-without-alloc", "%s is compiled only with the alloc feature" % missing[0], span=d.span_of(missing[0]))
@@ -1594,7 +2016,15 @@ def r_stackcap(ctx):
     bp = builds.get("mem::stack_n::StackN")
     if not bp:
         res.coverage_lost("mem::stack_n::StackN", "MemBuilder::build not found")
-    for tt, I in ctx.arms(bp) or [] if bp else []:
+    # ... and so does every other function that assembles a StackNMem itself (a sizeable-builder impl, a conversion): the struct literal is the construction
+    makers = [bp] if bp else []
+    for f in fx.fn_list:
+        if f["path"] in makers or fx.fn(f["path"]) is not f:
+            continue
+        if any("rv" in st_ and st_["rv"].get("k") == "agg" and st_["rv"].get("adt") == "mem::stack_n::StackNMem" for b in f.get("blocks", []) for st_ in b["stmts"]):
+            makers.append(f["path"])
+    for bp in makers:
+      for tt, I in ctx.arms(bp) or []:
         res.inst(sample={"function": bp, "check": "construction panics unless N x element size <= SIZE"}, func=bp)
         rets = I.all_effects(("RETURN",))
         ok = False
@@ -1609,7 +2039,8 @@ def r_stackcap(ctx):
         if ok and rets:
             res.ok()
         else:
-            res.fail(bp, "fits-check", "StackN::build does not establish N x element size <= SIZE before returning", span=ctx.span_of(bp))
+            res.fail(bp, "fits-check", "%s assembles StackN storage without establishing N x element size <= SIZE before returning: size() reports N slots over a "
+                     "buffer that holds fewer" % bp, span=ctx.span_of(bp))
     return res
 
 
@@ -1655,6 +2086,39 @@ def storage_owners(ctx):
                 owners.add(path)
                 changed = True
     return owners, owns
+
+
+def _reassembles_parameter(ctx, f, tm, owns):
+    args = tm.get("args", [])
+    if not args:
+        return False
+    op = args[0]
+    pl = op.get("move") or op.get("copy")
+    if not pl or pl.get("proj"):
+        return False
+    loc = pl.get("local", 0)
+    if not (1 <= loc <= f.get("arg_count", 0)):
+        # a temporary the parameter was moved into (`_3 = move _1; ManuallyDrop::new(move _3)`)
+        src = None
+        for b in f["blocks"]:
+            for st_ in b["stmts"]:
+                d = st_.get("dst")
+                if d and d.get("local") == loc and not d.get("proj") and st_.get("rv", {}).get("k") == "use":
+                    a0 = (st_["rv"].get("args") or [{}])[0]
+                    p0 = a0.get("move") or a0.get("copy") if isinstance(a0, dict) else None
+                    if p0 and not p0.get("proj"):
+                        src = p0.get("local")
+        if src is None or not (1 <= src <= f.get("arg_count", 0)):
+            return False
+    out = f.get("sig", {}).get("output", {})
+    if not owns(out):
+        return False
+    for tt, I in ctx.arms(f["path"]) or []:
+        if I.all_effects(("USER", "CLONE", "CLONE_INTO", "DESTROY", "MOVE_INTO", "RESERVE", "BUILD")):
+            return False
+        if any(not str(e.get("what", "")).startswith("<") or "clone_type::CloneType" not in str(e.get("trait", "")) for e in I.all_effects(("UNKNOWN",))):
+            return False
+    return True
 
 
 def r_noleak(ctx):
@@ -1705,6 +2169,10 @@ def r_noleak(ctx):
                 continue
             res.inst(sample={"function": f["path"], "suppresses_drop_of": ga[0].get("s"), "through": how}, func=f["path"])
             if hands_out_storage(f):
+                res.ok()
+            elif _reassembles_parameter(ctx, f, tm, owns):
+                # a by-value vector parameter is taken apart and its storage moved into the returned vector (a conversion between two vector types over
+                # the same storage) with nothing in between that could unwind or run user code
                 res.ok()
             else:
                 res.fail(f["path"], "suppressed-drop:" + (ga[0].get("path") or ga[0].get("s", "?")).split("::")[-1],
@@ -1846,4 +2314,80 @@ def r_handlelife(ctx):
     if not relocating or not inplace:
         res.coverage_lost("<crate>", "expected destructors that relocate slots (range handles) and destructors that destroy in place (owned element pointers); "
                           "found %d / %d" % (len(relocating), len(inplace)))
+    return res
+
+
+# ------------------------------------------------------------------------------------------------ R-TRAITSET
+
+def r_traitset(ctx):
+    """the declared constraint set of a vector never GROWS across a safe public function: a function that takes a vector (or a view / handle of one) with the
+    concrete constraint set A and returns one with the concrete set B needs B's markers (Send, Sync, Cloneable) to be among A's - the elements were only
+    checked against A when they were admitted"""
+    res = RuleResult("R-TRAITSET")
+    MARK = (("Send", "marker::Send"), ("Sync", "marker::Sync"), ("Cloneable", "traits::Cloneable"))
+
+    def sets(t, out, depth=0):
+        if not isinstance(t, dict) or depth > 6:
+            return
+        if t.get("k") == "adt" and t.get("path", "").split("::")[0] in ("any_vec", "element", "iter", "ops", "any_vec_typed"):
+            for a in t.get("args", []):
+                if a.get("k") == "dyn":
+                    out.append((t["path"], frozenset(m for m, pat in MARK if pat in a.get("s", "")), a.get("s", "")))
+        for a in t.get("args", []) if t.get("k") == "adt" else []:
+            sets(a, out, depth + 1)
+        if t.get("k") in ("ref", "ptr", "slice", "array"):
+            sets(t.get("to"), out, depth + 1)
+        for a in t.get("elems", []) if t.get("k") == "tuple" else []:
+            sets(a, out, depth + 1)
+    for f in ctx.fx.fn_list:
+        if f.get("kind") not in ("Fn", "AssocFn") or not ctx.is_public(f) or f.get("unsafe") or ctx.fx.fn(f["path"]) is not f or "sig" not in f:
+            continue
+        ins, outs = [], []
+        for t in f["sig"]["inputs"]:
+            sets(t, ins)
+        sets(f["sig"]["output"], outs)
+        if not ins or not outs:
+            continue
+        res.inst(sample={"function": f["path"], "takes": [x[2] for x in ins][:2], "returns": [x[2] for x in outs][:2]}, func=f["path"])
+        bad = [o for o in outs if not any(o[1] <= i[1] for i in ins)]
+        if bad:
+            gained = sorted(bad[0][1] - max(ins, key=lambda i: len(i[1] & bad[0][1]))[1])
+            res.fail(f["path"], "constraint-set-grows:" + "+".join(gained), "%s turns a vector declared with %s into one declared with %s: the result claims %s although "
+                     "the elements were never required to satisfy it (e.g. a vector of Cell<u32> becomes shareable between threads)"
+                     % (f["path"], ins[0][2], bad[0][2], ", ".join(gained)), span=ctx.span_of(f["path"]))
+        else:
+            res.ok()
+    # (b) a safe public function that MAKES a vector of element type T (the type id it records is TypeId::of::<T>() of one of its own type parameters) and
+    # returns it with a constraint-set parameter must demand `T: SatisfyTraits<Traits>`: that bound is what rejects an element type lacking a declared
+    # constraint at compile time (a weaker bound admits Rc into a `dyn Send` vector)
+    for f in ctx.fx.fn_list:
+        if f.get("kind") not in ("Fn", "AssocFn") or not ctx.is_public(f) or f.get("unsafe") or ctx.fx.fn(f["path"]) is not f or "sig" not in f:
+            continue
+        out = f["sig"]["output"]
+        while out.get("k") == "adt" and out.get("path") in ("core::option::Option", "core::result::Result"):
+            out = next((a for a in out.get("args", []) if a.get("k") != "region"), {})
+        if out.get("k") != "adt" or out.get("path") != "any_vec::AnyVec":
+            continue
+        targs = [a for a in out.get("args", []) if a.get("k") != "region"]
+        if not targs or targs[0].get("k") not in ("param", "dyn"):
+            continue
+        tps = {g["name"] for g in f.get("generics", []) if g.get("kind") == "type"}
+        for tt, I in ctx.arms(f["path"]) or []:
+            tr = ret_tree(I) or {}
+            tid = None
+            for k_, v_ in tr.items():
+                if k_[-1:] == ("type_id",) and isinstance(v_, tuple) and v_[:1] == ("TYPEID",) and v_[1] in tps:
+                    tid = v_[1]
+            if tid is None:
+                continue
+            want = targs[0].get("name") if targs[0].get("k") == "param" else None
+            res.inst(sample={"makes_vector_of": tid, "function": f["path"], "constraint_set": targs[0].get("s")}, func=f["path"])
+            ok = any(w.startswith(tid + ": ") and "SatisfyTraits<" in w and (want is None or ("<" + want + ">") in w or True) for w in f.get("where", []))
+            if ok:
+                res.ok()
+            else:
+                res.fail(f["path"], "element-type-unconstrained", "%s builds a vector whose element type is its type parameter %s and returns it as %s without the bound "
+                         "`%s: SatisfyTraits<..>`: element types lacking a declared constraint (Rc in a `dyn Send` vector) are admitted" % (f["path"], tid, out.get("s"), tid),
+                         span=ctx.span_of(f["path"]))
+            break
     return res
